@@ -10,6 +10,7 @@ callbacks (atomic w.r.t. each other).
 """
 from harness.sim import simcluster                                       # noqa: F401
 from harness.sim.simcluster import SimWorld, FakeNode, make_cluster
+from harness.sim.detsched import DetSched
 from harness import wire
 
 import cassandra
@@ -17,12 +18,16 @@ from cassandra.policies import FallthroughRetryPolicy, RoundRobinPolicy, Convict
 from cassandra.cluster import ExecutionProfile, EXEC_PROFILE_DEFAULT
 
 NEW = "ks2"
+OLD = "ks"
 
 S_NEVER = "Session._set_keyspace_for_all_pools:never-completes-when-a-pool-has-no-connection-or-is-shut-down"
 S_LAST = "Session._set_keyspace_for_all_pools:reports-only-the-last-pool's-errors"
 S_DIED = "Connection.set_keyspace_async:connection-death-during-USE-reported-as-success"
 S_POOLKS = "HostConnection._set_keyspace_for_all_conns:keyspace-not-recorded-without-connection"
-KNOWN = (S_NEVER, S_LAST, S_DIED, S_POOLKS)
+S_LATE = "HostConnection._replace:keyspace-switch-between-USE-and-publication-of-the-replacement-lost"
+KNOWN = (S_NEVER, S_LAST, S_DIED, S_POOLKS, S_LATE)
+RSTEPS = {"RCheck": ("queued", "open", "opening"), "ROpen": ("open", "use", "opened"), "RUse": ("use", "publish", "use:done"),
+          "RPublish": ("publish", "done", None)}
 
 
 class HarnessRefusal(Exception):
@@ -39,12 +44,14 @@ class NeverConvict(ConvictionPolicy):
 
 class KsHarness:
     GROUP_A = ("completions", "result")
-    GROUP_B = ("connks", "poolks", "borrowed")
+    GROUP_B = ("connks", "poolks", "borrowed", "newks")
 
-    def __init__(self, pstate, outcome):
-        """pstate / outcome: dicts pool number -> value (spec's Init)."""
+    def __init__(self, pstate, outcome, rph=None):
+        """pstate / outcome / rph: dicts pool number -> value (spec's Init).  rph: how far the _replace task of a
+        pool without connection has got when the switch begins (queued, open, use, publish)."""
         self.n = len(pstate)
         self.pstate, self.outcome = dict(pstate), dict(outcome)
+        self.rph = {p: ((rph or {}).get(p) or "queued") if pstate[p] == "noconn" else "none" for p in pstate}
         self.world = SimWorld()
         self.addr = {p: "10.0.0.%d" % p for p in range(1, self.n + 1)}
         self.nodes = {p: self.world.add_node(FakeNode(self.addr[p], tokens=["%02x" % (p * 16)])) for p in self.addr}
@@ -52,7 +59,40 @@ class KsHarness:
                                    request_timeout=10.0)
         self.cluster = make_cluster(self.world, [self.addr[1]], execution_profiles={EXEC_PROFILE_DEFAULT: profile},
                                     conviction_policy_factory=NeverConvict)
+        self.sched = DetSched()
+        self.newconn = {}
+        by_addr = {a: p for p, a in self.addr.items()}
+        orig_factory = self.cluster.connection_factory
+
+        def factory(endpoint, *a, **kw):
+            mine = kw.get("on_orphaned_stream_released") is not None
+            if mine:
+                self.sched.yield_point("opening")
+            conn = orig_factory(endpoint, *a, **kw)
+            if mine:
+                p = by_addr[endpoint.address]
+                self.newconn[p] = conn
+                orig_skb = conn.set_keyspace_blocking
+
+                def set_keyspace_blocking(keyspace, orig_skb=orig_skb, node=self.nodes[p]):
+                    node.auto = True                 # the USE on the new connection is answered at once ...
+                    try:
+                        orig_skb(keyspace)
+                    finally:
+                        node.auto = False
+                    self.sched.yield_point("use:done")   # ... but is a step of its own for the schedule
+                conn.set_keyspace_blocking = set_keyspace_blocking
+                self.sched.yield_point("opened")
+            return conn
+        self.cluster.connection_factory = factory
         self.session = self.cluster.connect()
+        for n in self.nodes.values():
+            n.auto = True
+        try:
+            self.session.set_keyspace(OLD)              # the session starts on keyspace "ks"
+        finally:
+            for n in self.nodes.values():
+                n.auto = False
         self.cluster.executor.inline = False
         hosts = {h.endpoint.address: h for h in self.cluster.metadata.all_hosts()}
         self.host = {p: hosts[self.addr[p]] for p in self.addr}
@@ -70,7 +110,50 @@ class KsHarness:
                 conn.socket_error()
                 if self.pool[p]._connection is not None or not self._replace_task(p):
                     raise RuntimeError("could not bring pool %d into the state 'being replaced'" % p)
+                want, self.rph[p] = self.rph[p], "queued"
+                for step in ("RCheck", "ROpen", "RUse"):
+                    if self.rph[p] != want:
+                        self._rstep(step, p)
+                if self.rph[p] != want:
+                    raise RuntimeError("could not bring the _replace task of pool %d to phase %s" % (p, want))
+        for p, pool in self.pool.items():
+            if pstate[p] == "conn" and not (pool._keyspace == OLD and pool._connection.keyspace == OLD):
+                raise RuntimeError("initial keyspace not established on pool %d" % p)
         self.coord = min(p for p in self.addr if pstate[p] == "conn")
+
+    def _rstep(self, name, p):
+        frm, to, label = RSTEPS[name]
+        if self.rph.get(p) != frm:
+            raise HarnessRefusal("the _replace task of pool %d is in phase %s, not %s" % (p, self.rph.get(p), frm))
+        tname = "R%d" % p
+        if frm == "queued":
+            t = self._replace_task(p)
+            if t is None:
+                raise HarnessRefusal("pool %d has no _replace task queued" % p)
+            self.sched.spawn(tname, self.cluster.executor.run, t)
+        n = 0
+        while True:
+            lab = self.sched.step(tname)
+            n += 1
+            if lab == "end" or lab == label:
+                break
+            if n > 500:
+                raise HarnessRefusal("the _replace task of pool %d does not reach %s" % (p, label))
+        if lab == "end" and label is not None:
+            raise HarnessRefusal("the _replace task of pool %d ended before %s" % (p, label))
+        self.rph[p] = to
+
+    def act_RCheck(self, p):
+        self._rstep("RCheck", p)
+
+    def act_ROpen(self, p):
+        self._rstep("ROpen", p)
+
+    def act_RUse(self, p):
+        self._rstep("RUse", p)
+
+    def act_RPublish(self, p):
+        self._rstep("RPublish", p)
 
     def _replace_task(self, p):
         for t in self.cluster.executor.queue:
@@ -146,12 +229,14 @@ class KsHarness:
                 result = "error"
             elif f._final_result is not cassandra.cluster._NOT_SET:
                 result = "ok"
-        connks, poolks = {}, {}
+        connks, poolks, newks = {}, {}, {}
         for p, pool in self.pool.items():
             c = pool._connection
             connks[p] = "none" if (c is None or c.is_closed or c.is_defunct) else ("new" if c.keyspace == NEW else "old")
             poolks[p] = "new" if pool._keyspace == NEW else "old"
-        return {"completions": self.cbs + self.ebs, "result": result, "connks": connks, "poolks": poolks,
+            nc = self.newconn.get(p) if self.rph.get(p) in ("use", "publish") else None
+            newks[p] = "-" if (nc is None or nc is c or nc.keyspace is None) else ("new" if nc.keyspace == NEW else "old")
+        return {"completions": self.cbs + self.ebs, "result": result, "connks": connks, "poolks": poolks, "newks": newks,
                 "borrowed": dict(self.borrowed), "outstanding": frozenset(p for p in self.addr if self._use_pending(p))}
 
     def teardown(self):
@@ -172,7 +257,7 @@ def spec_view(s):
     pstate = _fn(s["pstate"])
     return {"completions": s["completions"], "result": s["result"], "connks": _fn(s["connks"]),
             "poolks": {p: (v if pstate[p] != "shutdown" else None) for p, v in _fn(s["poolks"]).items()},
-            "borrowed": _fn(s["borrowed"]), "outstanding": frozenset(s["asked"])}
+            "borrowed": _fn(s["borrowed"]), "outstanding": frozenset(s["asked"]), "newks": _fn(s["newks"])}
 
 
 def diff(spec, real, pstate):
@@ -186,9 +271,13 @@ def diff(spec, real, pstate):
     return out
 
 
-def classify(act, state, d, last_finished):
+def classify(act, state, d, last_finished, prev=None):
     """Stable signature for the first divergence of a behaviour in a group of fields."""
     pstate, outcome = _fn(state["pstate"]), _fn(state["outcome"])
+    if act["name"] == "RPublish" and "connks" in d and prev is not None:
+        p = act["p"]
+        if _fn(prev["newks"])[p] == "old" and _fn(prev["poolks"])[p] == "new" and d["connks"]["code"].get(p) == "old":
+            return S_LATE              # the USE was issued before the switch was recorded, the publication came after it
     if "completions" in d or "result" in d:
         code_done = d.get("completions", {}).get("code", state["completions"])
         if state["completions"] == 1 and code_done == 0:
@@ -217,7 +306,7 @@ def replay(states):
     s0 = states[0]
     pstate, outcome = _fn(s0["pstate"]), _fn(s0["outcome"])
     try:
-        h = KsHarness(pstate, outcome)
+        h = KsHarness(pstate, outcome, _fn(s0["rph"]))
     except Exception as ex:
         return [{"step": 0, "action": {"name": "Init", "p": 0}, "signature": "replay:Init:%s" % type(ex).__name__,
                  "diff": {"_setup": {"spec": "configuration", "code": "%s: %s" % (type(ex).__name__, ex)}}}]
@@ -246,7 +335,8 @@ def replay(states):
             for group in (KsHarness.GROUP_A, KsHarness.GROUP_B, ("outstanding",)):
                 dg = {k: v for k, v in d.items() if k in group}
                 if dg:
-                    out.append({"step": i, "action": act, "signature": classify(act, s, dg, last_finished), "diff": dg})
+                    out.append({"step": i, "action": act, "diff": dg,
+                                "signature": classify(act, s, dg, last_finished, states[i - 1] if i else None)})
                     muted.update(group)
         return out
     finally:
@@ -261,27 +351,35 @@ def record(n, rng):
         if any(v == "conn" for v in pstate.values()):
             break
     outcome = {p: (rng.choice(["ok", "ok", "invalid", "srverr", "died"]) if pstate[p] == "conn" else "ok") for p in pstate}
-    h = KsHarness(pstate, outcome)
+    rph = {p: (rng.choice(["queued", "open", "use", "publish"]) if pstate[p] == "noconn" else "none") for p in pstate}
+    h = KsHarness(pstate, outcome, rph)
     rngp = range(1, n + 1)
+    nxt = {"queued": "RCheck", "open": "ROpen", "use": "RUse", "publish": "RPublish"}
 
     def post():
         p = h.project()
         return {"completions": p["completions"], "result": p["result"], "connks": [p["connks"][i] for i in rngp],
                 "poolks": [p["poolks"][i] for i in rngp], "borrowed": [p["borrowed"][i] for i in rngp],
-                "outstanding": sorted(p["outstanding"])}
-    events = [{"e": "Config", "pstate": [pstate[i] for i in rngp], "outcome": [outcome[i] for i in rngp], "post": post()}]
+                "newks": [p["newks"][i] for i in rngp], "outstanding": sorted(p["outstanding"])}
+    events = [{"e": "Config", "pstate": [pstate[i] for i in rngp], "outcome": [outcome[i] for i in rngp],
+               "rph": [rph[i] for i in rngp], "post": post()}]
     try:
         h.do({"name": "Start", "p": 0})
         events.append({"e": "Start", "p": 0, "post": post()})
         while True:
-            out = sorted(h.project()["outstanding"])
-            if not out:
+            ops = [("PoolFinish", p) for p in sorted(h.project()["outstanding"])]
+            ops += [(nxt[h.rph[p]], p) for p in rngp if h.rph[p] in nxt]
+            if not any(o[0] == "PoolFinish" for o in ops):
                 break
-            p = rng.choice(out)
-            h.do({"name": "PoolFinish", "p": p})
-            events.append({"e": "PoolFinish", "p": p, "post": post()})
+            name, p = rng.choice(ops)
+            h.do({"name": name, "p": p})
+            events.append({"e": name, "p": p, "post": post()})
         for p in rngp:
-            if pstate[p] != "shutdown" and h.project()["connks"][p] == "none":
+            while h.rph[p] in nxt:                      # the replacement of a pool without connection completes
+                name = nxt[h.rph[p]]
+                h.do({"name": name, "p": p})
+                events.append({"e": name, "p": p, "post": post()})
+            if pstate[p] == "conn" and h.project()["connks"][p] == "none":
                 if h._replace_task(p) is None:
                     events.append({"e": "Anomaly", "p": p, "what": "no _replace task for a pool without connection"})
                     return events
@@ -305,6 +403,11 @@ def classify_event(trace, k):
     if ev["e"] == "Anomaly":
         return "trace:Anomaly"
     post = ev.get("post", {})
+    if ev["e"] == "RPublish" and k >= 1:
+        before = trace[k - 1]["post"]
+        i = ev["p"] - 1
+        if before["newks"][i] == "old" and before["poolks"][i] == "new" and post["connks"][i] == "old":
+            return S_LATE
     if ev["e"] == "Start" and any(pstate[i] == "noconn" and post["poolks"][i] != "new" for i in range(len(pstate))):
         return S_POOLKS
     if ev["e"] == "PoolFinish" and not post["outstanding"]:
